@@ -619,7 +619,7 @@ func runC18(c *Ctx) {
 				if ci > 0 && !c.Thorough {
 					break
 				}
-				for wi, m := range derWiden(v, c.Q(1<<20, 3<<20), c.Q(4, 12)) {
+				for wi, m := range derWiden(v, c.Q(1<<20, 2<<20), c.Q(4, 6)) {
 					cases = append(cases, tcase{d, fmt.Sprintf("nesting-flat/valid-encoding-widened/site=%d", wi), m, ci})
 				}
 			}
